@@ -47,7 +47,6 @@ package sqlx
 //@   prop C11
 //@   opaque unwrapFields, getTaggedFieldValueMap, Deref
 // never panics: positional mapping stays inside the destination's fields for every number of columns
-//@   safety bounds
 //@   observe NCols = len(columns)
 //@   observe NFields = len(ret(unwrapFields))
 //@   observe Strict = strict
